@@ -55,12 +55,16 @@ def build(rng):
         nb = 2
         units = [rng.choice(["CO", "CS", "CN", "C(F)C"])] * 2  # adjacent blocks of the SAME (asymmetric) unit: a chain has one reading per way of splitting its units between the blocks
     fam_i = rng.randrange(len(FAMS))
+    aba = nb == 3 and len(set(units)) == 3 and rng.random() < 0.35
+    if aba:
+        units = [units[0], units[1], units[0]]  # symmetric ABA triblock: the first and the third object are written identically
+    pfmt = rng.randrange(6)
     for b in range(nb):
         smi = units[b]
         u = gen.build_token(rng, smi, [Desc("<"), Desc(">")], "ends")
         m = gen.fragment_info(smi)[2]
-        fam, pf = FAMS[(fam_i + b) % len(FAMS)]
-        d = DistAst(fam, pf(m), rng.randrange(6), True)
+        fam, pf = FAMS[(fam_i + (0 if (aba and b == 2) else b)) % len(FAMS)]
+        d = DistAst(fam, pf(m), pfmt if aba else rng.randrange(6), True)
         if start == "prefix":
             s = StochAst(Desc(">"), Desc("<"), [u], [], d)
         else:
@@ -275,7 +279,14 @@ def run_case(case):
 
                 parts = [lib_value(equiv)]
                 if start == "prefix" and gen.parse_fragment(tail).to_text() == blocks[-1][0]:
-                    parts.append(lib_value([tuple(R[:-1]) + (R[-1] + 1,) for R in equiv]))
+                    if len(equiv) > 1 or (len(blocks) >= 2 and len({u for u, m in blocks}) == 1):
+                        import itertools as _it4
+
+                        N1 = sum(lengths) + 1
+                        alt = [c for c in _it4.product(range(1, N1), repeat=len(blocks)) if sum(c) == N1]  # every split of one more unit
+                    else:
+                        alt = [tuple(R[:-1]) + (R[-1] + 1,) for R in equiv]
+                    parts.append(lib_value(alt))
                 g_used = g_used or any(e.dist.family == "gauss" and 1 in [R[k] for R in equiv] for k, (i, e) in enumerate(stoch))
                 if g_used:
                     cands.append((parts[0], "c19.value-differs.gauss-single-unit-omits-negative-targets"))
